@@ -242,7 +242,9 @@ VALUES = {
     ('TemperatureFile', 'filename'): [('path', '@tfile', '@tfile')],
     ('ChemistryFile', 'filename'): [('path', '@cfile', '@cfile')],
     ('ChemistryFile', 'gases'): [('list2', 'H2O,CH4', ['H2O', 'CH4']),
-                                 ('list2sp', 'CO2, CO', ['CO2', 'CO'])],
+                                 ('list2sp', 'CO2, CO', ['CO2', 'CO']),
+                                 # molecule names that look like booleans / numbers must stay strings
+                                 ('list3no', 'H2O, NO, CO', ['H2O', 'NO', 'CO'])],
     ('PhoenixStar', 'phoenix_path'): [('path', '@dir', '@dir')],
     ('MultiNestOptimizer', 'multi_nest_path'): [('path', '@dir', '@dir')],
     ('MultiNestOptimizer', 'sampling_efficiency'): [('dflt', 'parameter', 'parameter'),
@@ -252,7 +254,8 @@ VALUES = {
                                        ('list1', 'H2-H2,', ['H2-H2'])],
     ('TaurexChemistry', 'fill_gases'): [('str', 'H2', 'H2'), ('list2', 'H2,He', ['H2', 'He']),
                                         ('list2c', 'H2,He,', ['H2', 'He']),
-                                        ('list2sp', 'H2, N2', ['H2', 'N2'])],
+                                        ('list2sp', 'H2, N2', ['H2', 'N2']),
+                                        ('list2no', 'N2, NO', ['N2', 'NO'])],
     # one ratio per fill gas after the first (two fill gases by default)
     ('TaurexChemistry', 'ratio'): [('dflt', '0.17567', 0.17567), ('num', '0.0625', 0.0625),
                                    ('sci', '4.8962e-2', 4.8962e-2), ('sciE', '1.5E-01', 0.15),
